@@ -202,7 +202,17 @@ func firstFrames(r string) string {
 }
 
 func child(prop string) {
-	c := hx.Start(prop, "Run.Check_"+prop, 40)
+	// thorough tier: larger shards (coqc start-up dominates the replay of a shard)
+	shard := 40
+	for i, a := range os.Args {
+		if (a == "-tier" || a == "--tier") && i+1 < len(os.Args) && os.Args[i+1] == "thorough" {
+			shard = 150
+		}
+		if a == "-tier=thorough" || a == "--tier=thorough" {
+			shard = 150
+		}
+	}
+	c := hx.Start(prop, "Run.Check_"+prop, shard)
 	T := stepT()
 	oracle := OracleC27
 	if prop == "C28" {
@@ -285,7 +295,7 @@ func child(prop string) {
 			one("corpus", sc)
 		}
 	}
-	n := c.N(260, 4000)
+	n := c.N(260, 2000)
 	for i := 0; i < n; i++ {
 		if len(c.Obs.Violations) >= 25 {
 			c.Note("stopped after 25 violations")
